@@ -104,6 +104,17 @@ def judge_c16(plan, result):
             if got != want:
                 viol.append({"inv": "J2", "sig": "C16/J2/str", "step": ev["i"],
                              "detail": {"obj": obj, "got": res, "want_tokens": want}})
+        elif op["op"] == "mapping" and is_arch:
+            if res["r"] != "ok":
+                st["mapping_unavailable"] = st.get("mapping_unavailable", 0) + 1
+                continue  # not part of what C16 names; only judged where it exists
+            st["listing_checks"] += 1
+            want = mdl.listing()
+            got = [(l, [i[0] for i in res["filters"].get(l, [])]) for l in res["layers"]]
+            ev["model"] = {"listing": want}
+            if got != [(l, ids) for l, ids in want]:
+                viol.append({"inv": "J2", "sig": "C16/J2/layer_mapping", "step": ev["i"],
+                             "detail": {"obj": obj, "got": res, "want": want}})
         elif op["op"] == "getitem" and is_arch:
             want = dict(mdl.listing()).get(op["k"])
             if want is None:
